@@ -70,7 +70,17 @@ def python_name(opname):
 
 
 def def_source(od, stub='none'):
-    ps = ', '.join(['self'] + [p['name'] if p['required'] else p['name'] + '=None' for p in od['params']])
+    ps = ['self'] + [p['name'] if p['required'] else p['name'] + '=None' for p in od['params']]
+    # what only a Python signature can say (no EParameter on HEAD: the description is the positional parameters)
+    extra = od.get('python_only', {})
+    if extra.get('varargs'):
+        ps.append('*' + extra['varargs'])
+    elif extra.get('kwonly'):
+        ps.append('*')
+    ps += [f'{n}=False' for n in extra.get('kwonly', [])]
+    if extra.get('varkw'):
+        ps.append('**' + extra['varkw'])
+    ps = ', '.join(ps)
     body = '        return None' if stub == 'none' else "        raise NotImplementedError('not yet implemented')"
     return [f"    def {python_name(od['name'])}({ps}):", body]
 
@@ -416,6 +426,9 @@ def gen_descr(rng, max_classes=6):
             ps = rng.sample(PNAMES, rng.randrange(0, 4))
             nreq = rng.randrange(0, len(ps) + 1)
             c['operations'].append({'name': on, 'params': [{'name': p, 'required': j < nreq} for j, p in enumerate(ps)]})
+            k = (len(on) + len(ps) + len(c['name'])) % 5          # no draw: this generator shares the run's stream
+            c['operations'][-1]['python_only'] = [{}, {'varargs': 'details'}, {'varkw': 'options'}, {'kwonly': ['relative']},
+                                                  {'varargs': 'details', 'kwonly': ['relative', 'strict'], 'varkw': 'options'}][k]
         for fn in pool:
             if rng.random() < 0.5:
                 t = rng.choice(BUILTIN_TYPES + ['Color'])
@@ -603,6 +616,7 @@ def ask_module(model, m, intern):
 #   ['mro', ci] ['get', ci, n] ['set', ci, n, v] ['eget', ci, n] ['eset', ci, n, v] ['isset', ci, n] ['unset', ci, n]
 #   ['call', ci, python method name, number of positional arguments] ['state', ci] ['xload', ci]
 #   ['new', ci]: one more instance of the class is created (ok / exception class)
+#   ['issub', ci, cj, 'handle'|'eclass']: issubclass between the class handles / their EClasses (cj = -1: EObject)
 #   ['sig', ci, python method name]: inspect.signature of the bound method as [name, required, kind]
 # values are plain JSON: 'x', 3, True, 1.5, None, ['a'], [1, 2]
 CLASH_TYPES = [('EString', 1), ('EInt', 1), ('EBoolean', 1), ('EDouble', 1), ('EString', -1), ('EInt', -1)]
@@ -722,6 +736,10 @@ def behave_history(D, rng, xload=True):
             for k in sorted({0, max(ops[pn]) + 1} | ops[pn]):
                 hist.append(['call', ci, pn, k])
         hist += [['state', ci], ['mro', ci]]
+    n = len(D['classes'])
+    for ci in range(n):
+        for cj in [-1] + list(range(n)):
+            hist += [['issub', ci, cj, 'handle'], ['issub', ci, cj, 'eclass']]
     if xload:
         # an instance of every class is saved and loaded back by a static and by a dynamic rendering
         hist += [['xload', ci] for ci in range(len(D['classes']))]
@@ -776,6 +794,11 @@ class Behaviour:
         if st[0] == 'new':
             self.factories[st[1]]()
             return 'created'
+        if st[0] == 'issub':
+            from pyecore.ecore import EObject
+            if st[3] == 'handle':
+                return bool(issubclass(self.factories[st[1]], EObject if st[2] < 0 else self.factories[st[2]]))
+            return bool(issubclass(self.eclasses[st[1]], EObject.eClass if st[2] < 0 else self.eclasses[st[2]]))
         k, o = st[0], self.obj(st[1])
         if k == 'mro':
             names = {c['name'] for c in self.D['classes']}
@@ -794,6 +817,8 @@ class Behaviour:
             return canon(delattr(o, st[2]))
         if k == 'call':
             return canon(getattr(o, st[2])(*['p'] * st[3]))
+        if k == 'issub':
+            raise ValueError('handled before the instance')
         if k == 'sig':
             import inspect
             return [[n, prm.default is inspect.Parameter.empty, prm.kind.name]
